@@ -166,10 +166,20 @@ class _Tap:
         self.mem = mem
         self.orig = mem.write_byte
         self.log: List[tuple] = []
+        self.keyi: List[int] = []
         mem.write_byte = self._write
 
     def _write(self, address, value, *args, **kwargs):
         a = address & 0xFFFFFF
+        if a == 0x1000FC and (value & 4):
+            raw = self.mem.external_memory
+            if not (raw[len(raw) - 256 + 0xFC] & 4):
+                # KEYI rises: remember how many key events are queued at that instant
+                emu = getattr(self.mem, "_emulator", None)
+                try:
+                    self.keyi.append(len(emu.keyboard._matrix.fifo_snapshot()))
+                except Exception:
+                    self.keyi.append(-1)
         if a == 0x1000FB:
             # IMR write: remember the ISR and IMR values at that instant
             raw = self.mem.external_memory
@@ -358,6 +368,7 @@ def run_py_machine(scn: Dict[str, Any]) -> Dict[str, Any]:
             err = {"at": k, "msg": "left_code"}
             break
         tap.log.clear()
+        tap.keyi.clear()
         pre_s = cur[O_S] & 0xFFFFF
         try:
             emu.step()
@@ -374,6 +385,9 @@ def run_py_machine(scn: Dict[str, Any]) -> Dict[str, Any]:
             first = tap.log[0] if tap.log else None
             frame = [_py_read(emu, (pre_s - 5 + i) & 0xFFFFF) for i in range(5)]
             extra = {"tap": list(first) if first else None, "frame": frame}
+        if tap.keyi:
+            extra = dict(extra or {})
+            extra["keyi_fifo"] = list(tap.keyi)
         o.append(extra)
         obs.append(o)
     hist = {"obs": obs, "err": err, "evout": evout, "preobs": preobs}
